@@ -62,7 +62,7 @@ CHECKS = {
  "C03": dict(
    text="Ten theorems: Diagonal/Unit kinetic energy value, gradient = derivative (Coquelicot) and factor^2 = matrix for every dimension; Full: P p is the "
         "derivative of 1/2 p^T P p for symmetric P; BFGS history machine: for EVERY history of updates/accepts/rejects the momentum factor belongs to the metric in "
-        "use and a rejection restores metric and factor of the last acceptance; (f eps, M) ~ (eps, M/f^2) for every integrator, dimension and homogeneous kinetic "
+        "use and a rejection restores metric, factor and the reference pair (position, gradient) of the last acceptance; (f eps, M) ~ (eps, M/f^2) for every integrator, dimension and homogeneous kinetic "
         "gradient; mathcomp: cov(LTinv z) Minv = 1, the BFGS update preserves symmetry and positive definiteness when s.y > 0. Tie: factor recovered from real objects "
         "(lists / int / float32 / float64 inputs), interval enclosures of K and grad K, co-executed BFGS histories, scaling on the real propagators.",
    note="Trusted: Coq kernel, stdlib real axioms + classic + funext, mathcomp; scipy/numpy factorisations as oracles (checked numerically each run); metric values are "
